@@ -54,6 +54,9 @@ PROPS = {
  'add_hard_link() links every section of a multi-extent file': ('C01', 'add_fp(0xfffff800+1 bytes); add_hard_link(joliet): the Joliet name read back 0xfffff800 bytes (mc/bigfile.py link)'),
  'honours platform_id for additional sections': ('C11', 'add_eltorito(A); add_eltorito(A, platform_id=1): section header platform 0 (thorough sigma11)'),
  'only a UDF name is stored as one piece': ('C01', 'add_fp(4 GiB + 2049 bytes, udf_path only): write_fp raised AttributeError (Inode has no orig_extent_loc) (mc/bigfile.py udf-only-4g)'),
+ 'add_symlink encodes the UDF target before': ('C14', 'add_symlink(iso+rr+joliet+udf, udf_target with a 255-character component) refused after the namespaces were modified: next image differs (udf tag 261)'),
+ 'removed entry leaves the Rock Ridge lookup list': ('C07', 'add_fp(A); rm_file(A): get_record(rr_path=/a) on the editing object still returns the removed record (oracle_live, removed names must not resolve)'),
+ 'sorts after every entry is refused, not an IndexError': ('C07', 'get_record(rr_path=/b) with only /a present raised IndexError in _find_rr_record'),
  'resolve a relocated Rock Ridge directory through its link': ('C01', 'two depth-8 directories with the same Rock Ridge name in different parents: the second is missing from the Rock Ridge view (reloc-collide chain)'),
 }
 log = subprocess.run(['git', '-C', '/repo', 'log', '--reverse', '--format=%h\t%s', '1c3f835..HEAD'], stdout=subprocess.PIPE).stdout.decode().strip().splitlines()
